@@ -184,13 +184,8 @@ theorem execStmt_log (std : Std) (st st' : St) (s : Stmt) (h : execStmt std st s
     ∃ ks, st'.log = st.log ++ ks := by
   cases s with
   | use mod tail =>
-    simp only [execStmt] at h
-    cases hu : useArgs tail with
-    | error a => simp [hu] at h
-    | ok pr =>
-      obtain ⟨only, ren⟩ := pr
-      simp only [hu, Except.ok.injEq] at h
-      subst h; exact ⟨[], by simp⟩
+    simp only [execStmt, Except.ok.injEq] at h
+    subst h; exact ⟨[], by simp⟩
   | decl ts ents =>
     simp only [execStmt] at h
     cases h1 : logInner std st ents with
